@@ -116,6 +116,12 @@ pub(crate) fn ffsampling(
         LdlTree::Leaf(value) => {
             let z0 = sampler_z(t.0.coefficients[0].re, value[0].re, parameters.sigmin, rng);
             let z1 = sampler_z(t.1.coefficients[0].re, value[0].re, parameters.sigmin, rng);
+            #[cfg(feature = "verif-hooks")]
+            {
+                let (sg, sm) = (value[0].re, parameters.sigmin);
+                crate::verif_hooks::emit_sampler(t.0.coefficients[0].re, sg, sm, z0);
+                crate::verif_hooks::emit_sampler(t.1.coefficients[0].re, sg, sm, z1);
+            }
             (
                 Polynomial::new(vec![Complex64::new(z0 as f64, 0.0)]),
                 Polynomial::new(vec![Complex64::new(z1 as f64, 0.0)]),
